@@ -360,6 +360,10 @@ def _run_sl(case, rec, rng):
     worst_all = 0.0
     for d in range(case["ndraw"]):
         rhos = _densities(rng, case["ndens"])
+        # low uniform densities as well (down to 10 x the package's 1e-10 floor): the uniform-gas semilocal features carry no
+        # regulariser on the unchanged tree (alpha = tau / tau_unif = 1 exactly, s^2 = 0) - added after a seeded
+        # "+ 1e-16" division guard in get_alpha that only matters below rho = 3e-5
+        rhos = np.concatenate([rhos, np.exp(rng.uniform(np.log(1e-9), np.log(1e-3), size=max(4, case["ndens"] // 3)))])
         n = rhos.size
         for mode in ("nst", "npa", "ns", "np"):
             s = st.SemilocalSettings(mode)
